@@ -64,11 +64,16 @@
               vertex of the EXACT arc with the same centre, radius, start
               angle, range and number of points -- the real numbers denoted by
               the computed arc properties (C17_arc_vertex_ieee,
-              C17_arc_hausdorff_ieee_partial; the binary64 angle arithmetic:
-              C17_arc_angle_ieee, 2^-47).
+              C17_arc_vertices_ieee; the binary64 angle arithmetic:
+              C17_arc_angle_ieee, 2^-47); hence the two-sided bound
+              sag_n + 3/2 E_arc between the emitted polyline and that exact
+              arc, sag_n = r (1 - cos (range / (2 (n - 1)))) being the sagitta
+              for the number of points n the code computed
+              (C17_arc_hausdorff_ieee_partial; over the reals for any n:
+              C17_arc_hausdorff_any_count).
 
    NOT proved (the property stays PARTIAL for this reason only):
-     - circular arcs, the rest: (i) the chord / sagitta bound for the COMPUTED
+     - circular arcs, the rest: (i) sag_n <= 4 * tolerance for the COMPUTED
        number of points (C17_arc_hausdorff is about the count taken over the
        reals; the computed count goes through acosf, a binary32 division and
        ceil), (ii) the error of the computed centre, radius, start angle and
@@ -90,7 +95,7 @@ From RM Require Import Model.ControlPoints Model.Curve Gen.Generated Proofs.Bezi
   Proofs.HausdorffPlane Proofs.HausdorffArc Proofs.HausdorffBezierCore Proofs.HausdorffBezier
   Proofs.HausdorffCatmull Proofs.HausdorffCatmullDeriv Proofs.HausdorffSimplify
   Proofs.BezierIEEE Proofs.BezierIEEETight Proofs.VertexIEEEBase Proofs.VertexIEEECatmull Proofs.VertexIEEECatmullPath
-  Proofs.VertexIEEEBezierScalar Proofs.VertexIEEEBezier Proofs.VertexIEEEBezierPath Proofs.VertexIEEEBezierTight Proofs.VertexIEEEArc.
+  Proofs.VertexIEEEBezierScalar Proofs.VertexIEEEBezier Proofs.VertexIEEEBezierPath Proofs.VertexIEEEBezierTight Proofs.VertexIEEEArc Proofs.VertexIEEEArcPath.
 From Flocq Require Import Core BinarySingleNaN.
 From Coq Require Import Reals.
 Open Scope Z_scope.
@@ -927,17 +932,9 @@ Theorem C17_arc_vertex_ieee :
 Proof. exact arc_point_ieee. Qed.
 Print Assumptions C17_arc_vertex_ieee.
 
-(* the emitted arc.  PARTIAL with respect to the wanted
-     C17_arc_hausdorff_ieee: "the computed arc and the circular arc through the
-     three control points are within 4 * tol + (explicit rounding term) of each
-     other, both ways":
-   proved here -- vertex by vertex, the emitted arc is within E_arc E el (per
-   coordinate) of arc_path_R taken at the real numbers the computed arc
-   properties denote, WITH THE SAME NUMBER OF POINTS n (2 <= n < 1000);
-   missing -- (i) the sagitta bound of C17_arc_hausdorff for this n (it is
-   proved for n = arc_sub_points_R, the count over the reals), (ii) the error
-   of the computed arc properties against the circle through a, b, c. *)
-Theorem C17_arc_hausdorff_ieee_partial :
+(* the emitted arc, vertex by vertex, against arc_path_R taken at the real
+   numbers the computed arc properties denote, WITH THE SAME NUMBER OF POINTS n *)
+Theorem C17_arc_vertices_ieee :
   forall (lm : Libm) (el : R), (0 <= el)%R ->
   (forall x : F64, is_finite x = true ->
      is_finite (l_cos lm x) = true /\ (Rabs (B2R (l_cos lm x)) <= 1)%R /\ (Rabs (B2R (l_cos lm x) - cos (B2R x)) <= el)%R) ->
@@ -952,6 +949,69 @@ Theorem C17_arc_hausdorff_ieee_partial :
   2 <= n < arc_subpoint_cap /\ length arc = Z.to_nat n /\ length arcR = Z.to_nat n /\
   forall i, (i < Z.to_nat n)%nat -> vertex_near (E_arc E el) (nth i arc pos0) (nth i arcR (0, 0)%R).
 Proof. exact arc_path_ieee. Qed.
+Print Assumptions C17_arc_vertices_ieee.
+
+(* over the reals, ANY number n >= 2 of points: the chords are within the
+   sagitta sag_n of the arc and conversely (C17_arc_hausdorff is the case
+   n = arc_sub_points_R, where the sagitta is at most 4 * tolerance) *)
+Example pin_sag_n : forall r range n, sag_n r range n = (r * (1 - cos (range / (2 * IZR (n - 1)))))%R.
+Proof. reflexivity. Qed.
+
+Theorem C17_arc_hausdorff_any_count :
+  forall X Y r ts dir range : R, forall n : Z,
+  (0 <= r)%R -> (0 <= range <= 2 * PI)%R -> (dir = 1 \/ dir = -1)%R -> 2 <= n ->
+  let path := arc_path_R X Y r ts dir range n in
+  let arc := fun f : R => cpt X Y r (ts + f * (dir * range)) in
+  length path = Z.to_nat n /\
+  (forall i, (i < Z.to_nat n)%nat -> exists f, (0 <= f <= 1)%R /\ nth i path (0, 0)%R = arc f) /\
+  (forall i s, (S i < Z.to_nat n)%nat -> (0 <= s <= 1)%R ->
+     exists f, (0 <= f <= 1)%R /\
+       (dist2 (lerp2 (nth i path (0, 0)%R) (nth (S i) path (0, 0)%R) s) (arc f) <= sag_n r range n)%R) /\
+  (forall f, (0 <= f <= 1)%R ->
+     exists i s, (S i < Z.to_nat n)%nat /\ (0 <= s <= 1)%R /\
+       (dist2 (arc f) (lerp2 (nth i path (0, 0)%R) (nth (S i) path (0, 0)%R) s) <= sag_n r range n)%R).
+Proof. exact arc_hausdorff_n. Qed.
+Print Assumptions C17_arc_hausdorff_any_count.
+
+(* the emitted arc against the exact arc, both ways.  PARTIAL with respect to
+   the wanted
+     C17_arc_hausdorff_ieee: "the computed arc and the circular arc through the
+     three control points are within 4 * tol + (explicit rounding term) of each
+     other, both ways":
+   proved here -- the two-sided bound sag_n + 3/2 E_arc E el between the emitted
+   polyline and the exact arc whose centre, radius, start angle and range are
+   the real numbers the computed arc properties denote, sag_n being the
+   sagitta for the number of points n the code computed (2 <= n < 1000);
+   missing -- (i) sag_n <= 4 * tolerance for the COMPUTED n (proved for the
+   count over the reals, C17_arc_hausdorff; the computed count goes through
+   acosf, a binary32 division and ceil), (ii) the error of the computed arc
+   properties against the circle through a, b, c (circum-centre, atan2),
+   (iii) libm's accuracy (hypotheses here). *)
+Theorem C17_arc_hausdorff_ieee_partial :
+  forall (lm : Libm) (el : R), (0 <= el)%R ->
+  (forall x : F64, is_finite x = true ->
+     is_finite (l_cos lm x) = true /\ (Rabs (B2R (l_cos lm x)) <= 1)%R /\ (Rabs (B2R (l_cos lm x) - cos (B2R x)) <= el)%R) ->
+  (forall x : F64, is_finite x = true ->
+     is_finite (l_sin lm x) = true /\ (Rabs (B2R (l_sin lm x)) <= 1)%R /\ (Rabs (B2R (l_sin lm x) - sin (B2R x)) <= el)%R) ->
+  forall E a b c pr arc, 0 <= E <= 100 ->
+  circular_arc_properties lm a b c = Done (Some pr) -> arc_props_ok E pr ->
+  (0 <= B2R (a_radius pr))%R -> (B2R (a_theta_range pr) <= 2 * PI)%R ->
+  approximate_circular_arc lm a b c = Done (Some arc) ->
+  let n := arc_sub_points lm pr in
+  let X := B2R (px (a_centre pr)) in let Y := B2R (py (a_centre pr)) in let r := B2R (a_radius pr) in
+  let ts := B2R (a_theta_start pr) in let dir := B2R (a_direction pr) in let range := B2R (a_theta_range pr) in
+  let exact := fun f : R => cpt X Y r (ts + f * (dir * range)) in
+  let K := (sag_n r range n + 3 / 2 * E_arc E el)%R in
+  2 <= n < arc_subpoint_cap /\ length arc = Z.to_nat n /\ Forall pos_fin arc /\
+  (forall i, (i < Z.to_nat n)%nat ->
+     exists f, (0 <= f <= 1)%R /\ (dist2 (exact f) (posR (nth i arc pos0)) <= 3 / 2 * E_arc E el)%R) /\
+  (forall i s, (S i < Z.to_nat n)%nat -> (0 <= s <= 1)%R ->
+     exists f, (0 <= f <= 1)%R /\
+       (dist2 (exact f) (lerp2 (posR (nth i arc pos0)) (posR (nth (S i) arc pos0)) s) <= K)%R) /\
+  (forall f, (0 <= f <= 1)%R ->
+     exists i s, (S i < Z.to_nat n)%nat /\ (0 <= s <= 1)%R /\
+       (dist2 (exact f) (lerp2 (posR (nth i arc pos0)) (posR (nth (S i) arc pos0)) s) <= K)%R).
+Proof. exact arc_hausdorff_ieee. Qed.
 Print Assumptions C17_arc_hausdorff_ieee_partial.
 
 (* the hypotheses on the arc properties are satisfiable: centre (256, 192),
